@@ -12,6 +12,7 @@ import (
 )
 
 func jsonMarshal(v any) ([]byte, error) { return json.Marshal(v) }
+func jsonUnmarshal(b []byte, v any) error { return json.Unmarshal(b, v) }
 
 func usage() {
 	fmt.Fprintln(os.Stderr, "usage: rverif drive|replay|... [flags]")
